@@ -337,6 +337,10 @@ def check_property(prop, tier, seed, replay=None):
     lines = []
     for k, m in known_hit:
         lines.append('KNOWN-FINDING: property=%s %s [%s]' % (prop, k['what'], k['obligation']))
+    # findings on code that is not under contract: listed with their witness, reported on every run, not re-evaluated here
+    for k in kf.get('findings', []):
+        if k['property'] == prop and not k.get('obligation'):
+            lines.append('KNOWN-FINDING: property=%s %s [not re-evaluated by the verifier: %s; witness: %s]' % (prop, k['what'], k['call_site'], k['witness']))
     if (undecided or kani_undecided) and not violations:
         rc = 2
     for m, r in violations:
